@@ -28,7 +28,11 @@ extern "C" __attribute__((used)) const char* __asan_default_options() {
 extern "C" __attribute__((used)) const char* __ubsan_default_options() { return "halt_on_error=1:exitcode=77:print_stacktrace=0"; }
 static const char* FLAVOR = "san";
 #else
+#ifdef VSIM_DBG
+static const char* FLAVOR = "dbg";
+#else
 static const char* FLAVOR = "plain";
+#endif
 #endif
 
 // printable form of a violation detail: newlines kept, every other non-printable or non-ASCII byte escaped
